@@ -90,7 +90,7 @@ MachineCoords(c, r, NL, k, lc, p) ==
        IN IF tk[1] = 0 THEN "ok"
           \* since the fix "basic lexer counts newlines in every token" the code feeds with test_newline = TRUE;
           \* (before it fed with the newline_types flag of the matched terminal, see MC_LineCounter.tla)
-          ELSE LET lc2 == Feed(lc, NL, p, tk[2], TRUE) IN
+          ELSE LET lc2 == LcFeed(lc, NL, p, tk[2], TRUE) IN
                IF TT(c)[tk[1]].ign THEN MachineCoords(c, r, NL, k, lc2, tk[2])
                ELSE LET t == r.toks[k] IN
                     IF t[4] # lc.line \/ t[5] # LcCol(lc) \/ t[6] # lc2.line \/ t[7] # LcCol(lc2)
